@@ -104,6 +104,14 @@ def apply_edit(root: str, v: dict) -> bool:
     if v.get("name") in GLOBAL_VARIANTS:
         GLOBAL_VARIANTS[v["name"]](root)
         return True
+    if v.get("patch"):
+        # a unified diff kept under /verif (the seeded changes), applied with git apply
+        here = os.path.dirname(os.path.dirname(os.path.abspath(__file__)))
+        pth = os.path.join(here, v["patch"])
+        if not os.path.exists(pth):
+            return False
+        r = subprocess.run(["git", "apply", "--whitespace=nowarn", pth], cwd=root, capture_output=True, text=True)
+        return r.returncode == 0
     edits = v.get("edits") or [v]
     for e in edits:
         path = os.path.join(root, e["file"])
@@ -165,7 +173,13 @@ def _run_one(args):
         if not apply_edit(d, _load_variant(prop, v["name"])):
             return {"name": v["name"], "kind": v["kind"], "status": "skipped", "detail": "anchor not present in the current tree"}
         # the variant must still be valid Python
-        for e in (_load_variant(prop, v["name"]).get("edits") or [v]):
+        lv = _load_variant(prop, v["name"])
+        files = [e["file"] for e in (lv.get("edits") or [lv]) if "file" in e]
+        if lv.get("patch"):
+            here = os.path.dirname(os.path.dirname(os.path.abspath(__file__)))
+            with open(os.path.join(here, lv["patch"])) as fh:
+                files = [ln[6:].strip() for ln in fh if ln.startswith("+++ b/")]
+        for e in [{"file": x} for x in files]:
             if e["file"].endswith(".py"):
                 import ast as _ast
 
@@ -219,7 +233,7 @@ def run_variants(prop: str, repo: str, seed: int, jobs: int = 16) -> dict:
     if base is None:
         return {"armed_ok": 0, "benign_ok": 0, "failures": ["baseline run gave no verdict: %s" % tail[-300:]], "variants": []}
     baseline_keys = {(f["rule"], f["construct"]) for f in base}
-    light = [{"name": v["name"], "kind": v["kind"], "file": (v.get("edits") or [v])[0]["file"], "expect_rule": v.get("expect_rule", ""), "expect_construct": v.get("expect_construct", ""), "may_remove": v.get("may_remove", False), "expect_error": v.get("expect_error", False)} for v in variants]
+    light = [{"name": v["name"], "kind": v["kind"], "file": (v.get("edits") or [v])[0].get("file", v.get("patch", "")), "expect_rule": v.get("expect_rule", ""), "expect_construct": v.get("expect_construct", ""), "may_remove": v.get("may_remove", False), "expect_error": v.get("expect_error", False)} for v in variants]
     with ProcessPoolExecutor(max_workers=min(jobs, max(1, len(light)))) as ex:
         results = list(ex.map(_run_one, [(prop, repo, v, baseline_keys) for v in light]))
     failures = ["%s (%s): %s" % (r["name"], r["kind"], r["detail"]) for r in results if r["status"] in ("fail", "broken-variant")]
